@@ -125,10 +125,27 @@ func checkC19(t *testing.T, c C19Case) *stats.Verdict {
 				}
 			}
 		case "id":
-			m.ID = sse.ID(string(op.Value))
+			if op.Member%2 == 0 {
+				m.ID = sse.ID(string(op.Value))
+			} else {
+				// the same through the text unmarshaler, from a buffer the caller then reuses
+				buf := []byte(op.Value)
+				if err := m.ID.UnmarshalText(buf); err != nil {
+					return v.Failf("", "op %d: EventID.UnmarshalText(%q): %v", i, op.Value, err)
+				}
+				scribble(buf)
+			}
 			mod.IDSet, mod.ID = true, string(op.Value)
 		case "type":
-			m.Type = sse.Type(string(op.Value))
+			if op.Member%2 == 0 {
+				m.Type = sse.Type(string(op.Value))
+			} else {
+				buf := []byte(op.Value)
+				if err := m.Type.UnmarshalText(buf); err != nil {
+					return v.Failf("", "op %d: EventType.UnmarshalText(%q): %v", i, op.Value, err)
+				}
+				scribble(buf)
+			}
 			mod.TypeSet, mod.Type = true, string(op.Value)
 		case "retry":
 			m.Retry = time.Duration(op.Retry)
@@ -187,6 +204,9 @@ func genC19Pub(t *rapid.T) C19PubCase {
 	c.Replayer = stats.From(t, []string{"finite", "valid"}, "replayer")
 	c.Auto = stats.Pct(t, "auto") < 70
 	c.Times = 1 + stats.Pick(t, 8, "times")
+	if stats.Pct(t, "manytimes") >= 92 {
+		c.Times = 95 + stats.Pick(t, 50, "manytimesn") // IDs cross 99/100
+	}
 	c.ViaJoe = rapid.Bool().Draw(t, "viajoe")
 	if c.Replayer == "valid" && !c.ViaJoe && c.Times >= 2 && rapid.Bool().Draw(t, "drained") {
 		c.Drain = 1 + stats.Pick(t, c.Times-1, "drain")
